@@ -54,7 +54,7 @@ func (c c13) Generate(seed uint64, tier string, idx int) *core.Plan {
 	for i := 0; i < n; i++ {
 		signer := int64(r.Intn(7))
 		dl := int64(r.Pick([]int{0, 1, 20, 28, 32, 47, 48, 49, 64, 66, 67, 100, 128}))
-		p.Steps = append(p.Steps, core.Step{Op: "agree", A: []int64{signer, dl, int64(r.Intn(1 << 30)), int64(r.Intn(16)), int64(r.Intn(1 << 20)), int64(r.Intn(256))}})
+		p.Steps = append(p.Steps, core.Step{Op: "agree", A: []int64{signer, dl, int64(r.Intn(1 << 30)), int64(r.Intn(18)), int64(r.Intn(1 << 20)), int64(r.Intn(256))}})
 	}
 	return p
 }
@@ -290,7 +290,7 @@ func (c c13) agree(res *core.Result, log *core.EventLog, ent *entropy.Source, cv
 	check("honest", r, s, nil)
 	check("honest", nil, nil, der)
 	// one channel variant per step, chosen by the plan
-	v := int(st.Arg(3, 0)) % 16
+	v := int(st.Arg(3, 0)) % 18
 	x := st.Arg(4, 0)
 	one := big.NewInt(1)
 	switch v {
@@ -373,6 +373,27 @@ func (c c13) agree(res *core.Result, log *core.EventLog, ent *entropy.Source, cv
 		pubF, pubS = &of.PublicKey, &os.PublicKey
 		check("other-key", r, s, nil)
 		pubF, pubS = pf, ps
+	case 16:
+		// arbitrary byte strings offered as ASN.1 signatures
+		g := core.NewRand(uint64(x) ^ 0xDE5)
+		for i := 0; i < 6; i++ {
+			check("der-garbage", nil, nil, g.Bytes(g.Pick([]int{0, 1, 2, 3, 8, 40, 70, 104, 140})))
+		}
+	case 17:
+		// random but well-nested TLV structures: SEQUENCE of 0-3 elements with random tags / lengths
+		g := core.NewRand(uint64(x) ^ 0x71F)
+		for i := 0; i < 6; i++ {
+			var body []byte
+			for k := g.Intn(4); k > 0; k-- {
+				tag := byte(g.Pick([]int{0x02, 0x02, 0x02, 0x03, 0x04, 0x05, 0x30, 0x82}))
+				val := g.Bytes(g.Pick([]int{0, 1, 2, 20, 32, 33, 48, 49, 66, 67}))
+				if g.Bool(50) && len(val) > 0 {
+					val[0] &= 0x7f
+				}
+				body = append(body, tlv(tag, val)...)
+			}
+			check("der-random-tlv", nil, nil, tlv(byte(g.Pick([]int{0x30, 0x30, 0x30, 0x31, 0x10})), body))
+		}
 	case 15:
 		// a valid signature whose nonce point R has x in [N, p): r = x mod N is tiny. Built by
 		// choosing R and s and solving for the public key Q = r^-1 (s R - z G).
